@@ -32,6 +32,10 @@ def run(ctx):
         r3(ctx, facts, cfg)
         r4(ctx, facts, cfg)
         r5(ctx, facts, cfg)
+        # what 'its queue is empty' means for a context about to be reclaimed
+        from rules import c02
+        bn = {m.base: m for m in facts.fns if m.config == cfg and m.cls == c02.CLS and not m.rec.get("ctor") and not m.rec.get("dtor")}
+        c02.check_empty_semantics(ctx, bn, rule="C20.R3-f")
 
 
 def r1_r2(ctx, facts, cfg):
